@@ -392,7 +392,7 @@ def gen_cases(rng, thorough):
             # oracle verifies but which exercises nothing else)
             rs = None if rng.random() < 0.7 else rng.choice(REMOVE_SETS)
             nets = rng.sample(NETS, nw)
-            if vm == "vm1" and rng.random() < 0.3:
+            if vms == ["vm1"] and rng.random() < 0.3:
                 nets.insert(rng.randrange(len(nets)), "net5")      # incompatible with the default CentOS vm1
             cases.append(mk_case(rng, vms, nets, ft, rs))
         for _ in range(24):
